@@ -64,6 +64,7 @@ const (
 	OpAppendDone  = ns.OpAppendDone
 	OpApplyDone   = ns.OpApplyDone
 	OpStatus      = ns.OpStatus
+	OpProposeWait = ns.OpProposeWait
 )
 
 var msgMenuNames = ns.MsgMenuNames
@@ -105,6 +106,13 @@ type pair struct {
 	trace   []string
 	stopped bool
 	cached  *raft.VerifState
+	pend    *pending // a Propose call that is blocked inside the Node
+}
+
+type pending struct {
+	data   []byte
+	done   chan error
+	cancel context.CancelFunc
 }
 
 func enc(m proto.Message) []byte {
@@ -175,6 +183,10 @@ func (p *pair) settle() {
 }
 
 func (p *pair) stop() {
+	if p.pend != nil {
+		p.pend.cancel()
+		p.pend = nil
+	}
 	if !p.stopped {
 		p.n.Stop()
 		p.stopped = true
@@ -240,6 +252,9 @@ func (p *pair) key() [32]byte {
 		b = append(b, 1)
 	} else {
 		b = append(b, 0)
+	}
+	if p.pend != nil {
+		b = append(b, 'P')
 	}
 	b = qfp(b, p.rs.appendQ)
 	b = qfp(b, p.rs.applyQ)
@@ -449,6 +464,8 @@ func (p *pair) enabled(o Op) bool {
 	switch o.K {
 	case OpPropose:
 		return p.props < p.sp.MaxProposals
+	case OpProposeWait:
+		return p.props < p.sp.MaxProposals && p.pend == nil
 	case OpReadIndex:
 		return p.reads < p.sp.MaxReads
 	case OpReady:
@@ -699,6 +716,29 @@ func (p *pair) apply(o Op) (v *Violation) {
 				return p.viol("C20", "dropped-means-dropped", "a cancelled Propose returned %v", err)
 			}
 		}
+	case OpProposeWait:
+		prop = "C20"
+		p.props++
+		data := []byte(fmt.Sprintf("p%d", p.props))
+		pre := p.nodeFP()
+		ctx, cancel := context.WithCancel(context.Background())
+		pd := &pending{data: data, done: make(chan error, 1), cancel: cancel}
+		go func() { pd.done <- p.n.Propose(ctx, data) }()
+		p.settle()
+		select {
+		case err := <-pd.done:
+			cancel()
+			note = "-> " + errStr(err)
+			if v := p.proposalReturned(data, err); v != nil {
+				return v
+			}
+		default:
+			note = "(blocked; the client keeps waiting)"
+			p.pend = pd
+			if !bytes.Equal(pre, p.nodeFP()) {
+				return p.viol("C20", "dropped-means-dropped", "a proposal the Node has not taken changed its state")
+			}
+		}
 	case OpProposeConf:
 		prop = "C10"
 		var cc pb.ConfChangeV2
@@ -884,6 +924,19 @@ func (p *pair) apply(o Op) (v *Violation) {
 		// crash: whatever is not in storage is gone; the state machine resumes from
 		// min(its applied index, persisted commit) and never below the snapshot
 		p.n.Stop()
+		if p.pend != nil {
+			synctest.Wait()
+			select {
+			case err := <-p.pend.done:
+				if !errors.Is(err, raft.ErrStopped) {
+					return p.viol("C20", "dropped-means-dropped", "a Propose that was waiting when the Node stopped returned %v", err)
+				}
+			default:
+				return p.viol("C20", "dropped-means-dropped", "a Propose that was waiting when the Node stopped did not return")
+			}
+			p.pend.cancel()
+			p.pend = nil
+		}
 		for _, sd := range []*side{&p.ns, &p.rs} {
 			hs, snap, _ := sd.st.VerifDump()
 			sidx := snap.GetMetadata().GetIndex()
@@ -912,10 +965,55 @@ func (p *pair) apply(o Op) (v *Violation) {
 	}
 	p.settle()
 	p.trace = append(p.trace, fmt.Sprintf("%s %s", o, note))
+	if p.pend != nil {
+		// did the Node take the waiting proposal up after this operation?
+		select {
+		case err := <-p.pend.done:
+			pd := p.pend
+			p.pend = nil
+			pd.cancel()
+			p.trace = append(p.trace, fmt.Sprintf("  the waiting Propose(%s) returns %s", pd.data, errStr(err)))
+			if v := p.proposalReturned(pd.data, err); v != nil {
+				return v
+			}
+			prop = "C20"
+			p.settle()
+		default:
+			// still waiting: only legal while the reference would refuse it or this node is not a member
+			trial := p.ref.VerifClone(p.rs.st.VerifClone())
+			if trial.Propose(append([]byte(nil), pd0(p)...)) == nil && p.isMember() {
+				return p.viol("C20", "accepted-when-leader-known", "after %s a Propose is still blocked although a leader is known (lead %d) and RawNode.Propose accepts", o, p.state().Lead)
+			}
+		}
+	}
 	if v := p.compare(prop, o); v != nil {
 		return v
 	}
 	return p.probeNoReady(o)
+}
+
+func pd0(p *pair) []byte { return p.pend.data }
+
+func (p *pair) isMember() bool {
+	for _, pr := range p.state().Progress {
+		if pr.ID == self {
+			return true
+		}
+	}
+	return false
+}
+
+// proposalReturned brings the reference in line with a Propose call that returned err.
+func (p *pair) proposalReturned(data []byte, err error) *Violation {
+	rerr := p.ref.Propose(append([]byte(nil), data...))
+	p.cached = nil
+	if err == nil && rerr != nil {
+		return p.viol("C20", "dropped-means-dropped", "Node.Propose returned nil where RawNode.Propose returns %v", rerr)
+	}
+	if err != nil && rerr == nil {
+		return p.viol("C20", "accepted-when-leader-known", "Node.Propose returned %v where RawNode.Propose accepts the proposal", err)
+	}
+	return nil
 }
 
 func cmpCS(a, b [][]byte) *Violation {
